@@ -95,6 +95,14 @@ CLAIMED["C09"] = ("proof", "Hand model Model/TextParse.v of verif.input.Text on 
     "metadata; column classification (p<t> vs pit, e<m> vs elev, q<q>, offset = leadtime) and missing tokens by computation. Tie: the "
     "model on the lexed tokens vs verif.input.Text on generated files (random layouts), plus the abstract dataset as falsifier.",
     "7 C09", "Coq proof over hand model + correspondence check")
+CLAIMED["C10"] = ("proof", "GENERATED from /repo on every run: the cell rule of util.clean, the table of NetCDF variables the reader consults, the required "
+    "dims/vars, the content-based detection of get_input, the variables and types text2nc writes. Theorems (XR): masked/fill, NaN, -999 and "
+    ">1e30 cells are missing and every other finite value is delivered unchanged (exact characterisation of the cell rule); a value "
+    "written as float32 (abstract rounding r) and read back is r(value), missing stays missing; tables as documented; times are f8 and "
+    "everything else f4; detection depends on content only. PARTIAL: netCDF4, the file system and float32 rounding are outside the model; "
+    "whole-dataset and score agreement between a text file and a NetCDF file of the same abstract dataset (optional variables, every "
+    "missing encoding, custom fill values), text2nc round trips and misleading file names are checked on the implementation each run.",
+    "7 C10", "Coq proof over translated source + format-agreement correspondence check (partial)")
 PENDING = {}
 
 def main():
